@@ -83,7 +83,7 @@ var vfC17amFamilies = []vfC17amFamily{
 			"Npub": "/ip6/2a01:4f8::5/udp/5001/quic-v1", "Npriv": "/ip6/fc00::9/udp/5002/quic-v1", "Nun": "/ip6/::/udp/5003/quic-v1",
 			"O1": "/ip6/2a02:6b8::1/udp/6001/quic-v1", "O2": "/ip6/2a02:6b8::2/udp/6002/quic-v1/webtransport",
 			"O3": "/ip6/2a02:6b8::3/tcp/6003", "O4": "/ip6/2a02:6b8::4/udp/6004/quic-v1", "O5": "/ip6/2a02:6b8::5/tcp/6005",
-			"F1":   "/dns6/example.com/tcp/443/wss",
+			"F1":   "/ip6/2a04:4e42::1/udp/7001/quic-v1/webtransport",
 			"Rel1": "/ip6/2a03:2880::3/tcp/8001/p2p/" + vfC17amRelayID + "/p2p-circuit", "Rel2": "/p2p/" + vfC17amRelayID + "/p2p-circuit",
 		},
 		ifaces: []string{"/ip6/fd00::7", "/ip6/2a00:1450::7"},
@@ -113,6 +113,29 @@ type vfC17amUni struct {
 	conc   map[string]ma.Multiaddr
 	rev    map[string]string
 	ifaces []ma.Multiaddr
+
+	mmu     sync.Mutex
+	missing []string // /webtransport addresses met without certhash where the manager should have added one
+}
+
+// The harness's addCertHashes (the swarm's, in a real host): every address ending in /webtransport gets the
+// certificate hash appended, in place.
+var vfC17amCert = ma.StringCast("/certhash/uEiAkH5a4DPGKUuOBjYw0CgwjvcJCJMD2K_1aluKR_tpevQ")
+
+func vfC17amLastCode(a ma.Multiaddr) int {
+	if len(a) == 0 {
+		return -1
+	}
+	return a[len(a)-1].Protocol().Code
+}
+
+func vfC17amAddCertHashes(addrs []ma.Multiaddr) []ma.Multiaddr {
+	for i, a := range addrs {
+		if vfC17amLastCode(a) == ma.P_WEBTRANSPORT {
+			addrs[i] = a.Encapsulate(vfC17amCert)
+		}
+	}
+	return addrs
 }
 
 func vfC17amUniverse(variant int) (*vfC17amUni, error) {
@@ -156,9 +179,19 @@ func vfC17amUniverse(variant int) (*vfC17amUni, error) {
 	return u, nil
 }
 
-func (u *vfC17amUni) name(a ma.Multiaddr) string {
-	if a == nil {
+func (u *vfC17amUni) name(a ma.Multiaddr) string { return u.nameC(a, false) }
+
+// nameC: the model's name of a; needCert: a comes out of the manager, where /webtransport addresses carry a certhash
+func (u *vfC17amUni) nameC(a ma.Multiaddr, needCert bool) string {
+	if len(a) == 0 {
 		return "?nil"
+	}
+	if vfC17amLastCode(a) == ma.P_CERTHASH {
+		a = a[:len(a)-1]
+	} else if needCert && vfC17amLastCode(a) == ma.P_WEBTRANSPORT {
+		u.mmu.Lock()
+		u.missing = append(u.missing, a.String())
+		u.mmu.Unlock()
 	}
 	if n, ok := u.rev[string(a.Bytes())]; ok {
 		return n
@@ -166,12 +199,22 @@ func (u *vfC17amUni) name(a ma.Multiaddr) string {
 	return "?" + a.String()
 }
 
-// names renders a list as a sorted list of names; dup says whether an address occurs twice
-func (u *vfC17amUni) names(l []ma.Multiaddr) (out []string, dup bool) {
+func (u *vfC17amUni) takeMissing() []string {
+	u.mmu.Lock()
+	defer u.mmu.Unlock()
+	m := u.missing
+	u.missing = nil
+	return m
+}
+
+// names renders a list that comes out of the manager as a sorted list of names; dup says whether an address occurs twice
+func (u *vfC17amUni) names(l []ma.Multiaddr) (out []string, dup bool) { return u.namesC(l, true) }
+
+func (u *vfC17amUni) namesC(l []ma.Multiaddr, needCert bool) (out []string, dup bool) {
 	out = make([]string, 0, len(l))
 	seen := map[string]bool{}
 	for _, a := range l {
-		n := u.name(a)
+		n := u.nameC(a, needCert)
 		if seen[n] {
 			dup = true
 			continue
@@ -369,7 +412,7 @@ func vfC17amNew(cfg vfC17amCfg, variant int, free bool) (*vfC17amH, error) {
 		client = &vfC17amClient{h: h}
 	}
 	am, err := newAddrsManager(&vfC17amBus{Bus: h.bus, h: h}, natm, h.factory, h.listenAddrs,
-		func(a []ma.Multiaddr) []ma.Multiaddr { return a }, obsm, client, false, nil, false, cfg.PubOnly, key, ps, pid)
+		vfC17amAddCertHashes, obsm, client, false, nil, false, cfg.PubOnly, key, ps, pid)
 	if err != nil {
 		return nil, err
 	}
@@ -554,7 +597,7 @@ func (h *vfC17amH) factory(in []ma.Multiaddr) []ma.Multiaddr {
 		panic("vf: unknown factory mode " + h.fmode)
 	}
 	if up != nil {
-		up.factoryOut, _ = h.u.names(out)
+		up.factoryOut, _ = h.u.namesC(out, false)
 		h.done = append(h.done, up)
 		h.upd = nil
 	}
@@ -786,9 +829,7 @@ func (h *vfC17amH) query() (addrs, direct, r, u, k, hp []string, dup string) {
 	if k, d = h.u.names(ck); d {
 		dup += " ConfirmedAddrs.unknown"
 	}
-	if hp, d = h.u.names(p); d {
-		dup += " HolePunchAddrs"
-	}
+	hp, _ = h.u.namesC(p, false) // observedAddrsManager.Addrs(1) is appended as it is: no certhash, possibly both forms
 	h.mu.Lock()
 	h.lastDirect = vfC17amSet(direct)
 	h.mu.Unlock()
@@ -1457,6 +1498,9 @@ func vfC17amWalk(t *testing.T, res *vfh.Result, cfg vfC17amCfg, w vfh.Walk, vari
 			addrs, direct, r, u, k, hp, dup := h.query()
 			if dup != "" {
 				rep("am-duplicate-address", "an address occurs twice in"+dup)
+			}
+			if m := h.u.takeMissing(); len(m) > 0 {
+				rep("am-certhash-missing", fmt.Sprintf("after %s: /webtransport addresses without certhash in what the manager hands out: %v", op.Name(), m))
 			}
 			for _, up := range ups {
 				h.checkUpdate(up, direct, r, u, relayCur, reachCur, rep)
